@@ -99,6 +99,7 @@ type node struct {
 	viewLdg *ledger.Ledger
 	price   int64
 	nonces  map[string]uint64
+	rt      *routeState // the node's interchain router with one subscribed pier per chain (route.go)
 }
 
 func openNode(dir string, cfg *repo.Config, price int64) (*node, error) {
